@@ -99,6 +99,12 @@ Lemma firstn_bytes_words d k : bytes_ok d -> (length d mod 8 = 0)%nat ->
   firstn (8 * k) d = bytes_of_words (firstn k (words_of_bytes d)).
 Proof. intros Hb Hl. rewrite bow_firstn, (bow_wob d Hb Hl). reflexivity. Qed.
 
+
+Lemma vdepth_in_fold_max p ps : In p ps -> (vdepth p <= fold_right (fun p m => Nat.max (vdepth p) m) O ps)%nat.
+Proof.
+  induction ps as [|y r IH]; [intros []|]. intros [->|H]; cbn [fold_right]; [lia|]. specialize (IH H). lia.
+Qed.
+
 Section Ind.
 Context (c : config) (fx : cfix) (m : segs).
 Context (Hstrict : cfg_strict c = true) (Hfx : all_cfixed fx) (Hm : msg_ok m).
@@ -256,5 +262,129 @@ Proof.
   f_equal. rewrite skipn_all2 by (rewrite app_length, repeat_length; lia). apply app_nil_r.
 Qed.
 
+
+Lemma alloc_bound data cap sz m1 s1 a1 : 0 <= sz <= 4294967288 -> sz mod 8 = 0 ->
+  alloc (seg0 data cap) 0 sz = Ok (m1, s1, a1) -> zlen data + sz <= 4294967288.
+Proof.
+  intros Hs Hmm H. unfold alloc in H. destruct (sz >? maxAllocSize) eqn:E0; [discriminate H|].
+  rewrite (padToWord_mult sz) in H by lia.
+  change (get_seg (seg0 data cap) 0) with (mkBS data cap) in H.
+  destruct (hasCapacity (mkBS data cap) sz) eqn:Hc.
+  - cbn [bind] in H. change (get_seg (seg0 data cap) 0) with (mkBS data cap) in H. unfold blen in H. cbn [bs_data bs_cap] in H.
+    destruct (addSize (zlen data) sz) eqn:Eas; [|discriminate H]. apply addSize_spec in Eas. unfold maxSegmentSize in Eas. lia.
+  - unfold allocSegment in H. rewrite E0 in H. cbn [seg0 bm_arena] in H.
+    change (get_seg (seg0 data cap) 0) with (mkBS data cap) in H.
+    destruct (negb (blen (mkBS data cap) mod 8 =? 0)); [cbn [bind] in H; discriminate H|]. rewrite Hc in H.
+    destruct (nextAlloc (blen (mkBS data cap)) maxAllocSize sz) as [inc| |]; try (cbn [bind] in H; discriminate H).
+    cbn [bind bs_data bs_cap] in H.
+    change (get_seg (put_seg (seg0 data cap) 0 (mkBS data (cap + inc))) 0) with (mkBS data (cap + inc)) in H.
+    unfold blen in H. cbn [bs_data bs_cap] in H.
+    destruct (addSize (zlen data) sz) eqn:Eas; [|discriminate H]. apply addSize_spec in Eas. unfold maxSegmentSize in Eas. lia.
+Qed.
+
+Lemma ptr_step f : Q_fill f -> Q_ptr (S f).
+Proof.
+  intros HF data cap rl p v w' cp Hi Hwf Hal D Hsd H. rewrite canonical_ptr_S in H.
+  destruct (p_valid p) eqn:Hv; cbn [negb] in H.
+  2:{ (* null *)
+    inversion H; subst w' cp; clear H. pose proof (den_null_iff _ _ _ _ _ _ D) as Hn. rewrite Hv in Hn.
+    destruct v; try discriminate. exists [], cap, rl. cbn [bytes_of_words flat_map]. rewrite app_nil_r.
+    split; [reflexivity|]. split; [exact Hi|]. split; [left; reflexivity|].
+    intros a F _ _ _ HFd. cbn [norm vdepth] in HFd. destruct F; [lia|]. reflexivity. }
+  destruct v as [| |ws0 vs| |]; try discriminate.
+  { pose proof (den_null_iff _ _ _ _ _ _ D) as Hn. rewrite Hv in Hn. discriminate. }
+  assert (Hk : p_kind p = KStruct) by (inversion D; subst; congruence).
+  rewrite Hk in H. destruct Hfx as (_ & _ & Hfn & _). rewrite Hfn, Hstrict in H. cbn [w_src dstw] in H.
+  destruct (canonicalStructSize_spec m 0 [] p _ Hm Hwf Hv Hk (Hal Hk) D) as (ws' & vs' & E & Hcss).
+  inversion E; subst ws' vs'; clear E. rewrite Hcss in H. cbn [of_res kbind] in H.
+  destruct (den_struct_inv _ _ _ _ _ _ D Hv Hk) as (d & vs0 & Ev & Wz & Sl & Lvs & _).
+  inversion Ev; subst ws0 vs0; clear Ev.
+  set (ws := words_of_bytes d) in *.
+  set (k := zlen (strip0 ws)) in *. set (j := zlen (stripN vs)) in *.
+  destruct Wz as [Wd Wp].
+  apply slice_eq_sub in Sl as Sl'; [|apply seg_of_ok; assumption| lia]. destruct Sl' as (Ed & B1 & B2).
+  assert (Ld : zlen d = DataSize (p_size p)) by (rewrite Ed; apply sub_length; lia).
+  pose proof (words_of_bytes_length d) as Lw. fold ws in Lw.
+  pose proof (strip0_length_le ws) as Lk.
+  assert (Lj : (length (stripN vs) <= length vs)%nat) by (rewrite (stripN_firstn vs) at 1; rewrite firstn_length; lia).
+  assert (Hk0 : 0 <= k <= 65535) by (unfold k, zlen in *; lia).
+  assert (Hj0 : 0 <= j < 65536) by (unfold j, zlen in *; lia).
+  destruct Hi as [Hi1 Hi2]. assert (Z0 : 0 <= zlen data) by (unfold zlen; lia).
+  (* newStruct *)
+  unfold newStruct, os_isValid in H. cbn [DataSize PointerCount w_dst dstw] in H.
+  destruct (8 * k <=? 65535 * 8) eqn:E8; [|lia]. cbn [negb] in H.
+  rewrite (padToWord_mult (8 * k)) in H by lia.
+  replace (totalSize (mkOS (8 * k) j)) with (8 * k + 8 * j) in H
+    by (unfold totalSize, pointerSize, u32; cbn [DataSize PointerCount]; lia).
+  unfold lift in H.
+  destruct (alloc (seg0 data cap) 0 (8 * k + 8 * j)) as [[[m1 sid1] addr]| |] eqn:Ea; try discriminate.
+  pose proof (alloc_bound data cap (8 * k + 8 * j) m1 sid1 addr ltac:(lia) ltac:(lia) Ea) as Hbound.
+  destruct (alloc_seg0 data cap (8 * k + 8 * j) m1 sid1 addr Hi1 ltac:(lia) Ea) as (cap1 & -> & -> & ->).
+  rewrite (padToWord_mult (8 * k + 8 * j)) in * by lia.
+  cbn [bind of_res kbind w_set_dst w_src w_src_rl] in H.
+  set (ss := mkPtr true 0 (zlen data) 0 (mkOS (8 * k) j) maxDepth KStruct false false false) in *.
+  set (data1 := data ++ repeat 0 (Z.to_nat (8 * k + 8 * j))) in *.
+  change (w_set_dst (dstw data cap m rl) (seg0 data1 cap1)) with (dstw data1 cap1 m rl) in H.
+  destruct (fill_canonical c fx f (dstw data1 cap1 m rl) ss p) as [w2| | |] eqn:Ef; try discriminate.
+  cbn [kbind] in H. inversion H; subst w' cp; clear H.
+  assert (L1 : zlen data1 = zlen data + 8 * k + 8 * j) by (unfold data1; rewrite zlen_app; unfold zlen; rewrite repeat_length; lia).
+  assert (Hinv1 : hinv data1) by (split; lia).
+  assert (Hdst : dst_at ss (zlen data) k j) by (unfold dst_at, ss; cbn; repeat split; reflexivity).
+  assert (T0 : 0 <= k) by lia. assert (T1 : zlen data + 8 * k + 8 * j <= zlen data1) by lia.
+  assert (T3 : k <= zlen ws) by (unfold k, zlen in *; lia). assert (T4 : j <= zlen vs) by (unfold j, zlen in *; lia).
+  destruct (HF data1 cap1 rl ss p ws vs (zlen data) k j w2 Hinv1 Hdst Z0 Hi1 T0 Hj0 T1
+               Hv Hk Hwf Hal D Hsd T3 T4 Ef)
+    as (pwords & kids & cap2 & rl2 & Lp & -> & Hinv2 & Hcells).
+  set (dws := firstn (Z.to_nat k) ws) in *.
+  assert (Edws : dws = strip0 ws) by (unfold dws, k, zlen; rewrite Nat2Z.id; symmetry; apply strip0_firstn).
+  assert (Ldws : zlen dws = k) by (rewrite Edws; reflexivity).
+  assert (Lblock : length (dws ++ pwords) = Z.to_nat (k + j)) by (rewrite app_length; unfold zlen in *; lia).
+  assert (Edata : set_slots data1 (zlen data) (dws ++ pwords) = data ++ bytes_of_words (dws ++ pwords)).
+  { unfold data1. replace (Z.to_nat (8 * k + 8 * j)) with (8 * length (dws ++ pwords))%nat by lia. apply set_slots_end. }
+  rewrite Edata. exists ((dws ++ pwords) ++ kids), cap2, rl2.
+  rewrite (bow_app (dws ++ pwords) kids), <- app_assoc. split; [reflexivity|].
+  assert (Lbw : zlen (bytes_of_words (dws ++ pwords)) = 8 * k + 8 * j) by (unfold zlen; rewrite bow_length; lia).
+  split.
+  { unfold hinv in *. rewrite !zlen_app in *. rewrite Lbw. rewrite L1 in Hinv2. lia. }
+  split.
+  { right. unfold ss. cbn [p_valid p_seg p_member p_off p_kind p_size].
+    split; [reflexivity|]. split; [reflexivity|]. split; [reflexivity|]. split; [exact Hi1|].
+    split.
+    - rewrite !zlen_app, Lbw. assert (0 <= zlen (bytes_of_words kids)) by (unfold zlen; lia). lia.
+    - unfold os_wf. cbn [DataSize PointerCount]. lia. }
+  intros a F Ha Ham Hab HFd.
+  set (ps' := stripN (map norm vs)) in *.
+  assert (Eps : ps' = firstn (Z.to_nat j) (map norm vs)).
+  { unfold ps', j, zlen. rewrite Nat2Z.id, <- stripN_map_norm_length. apply stripN_firstn. }
+  assert (Lps : zlen ps' = j) by (unfold ps', j, zlen; rewrite stripN_map_norm_length; reflexivity).
+  change (norm (VStruct ws vs)) with (VStruct (strip0 ws) ps') in *. rewrite <- Edws in *.
+  destruct F as [|F']; [cbn [vdepth] in HFd; lia|].
+  assert (HFk : forall i, 0 <= i < j -> (vdepth (norm (nthv vs i)) <= F')%nat).
+  { intros i Hi0. cbn [vdepth] in HFd.
+    assert (Hin : In (norm (nthv vs i)) ps').
+    { assert (En : norm (nthv vs i) = nth (Z.to_nat i) (map norm vs) VNull)
+        by (unfold nthv; symmetry; exact (map_nth norm vs VNull (Z.to_nat i))).
+      rewrite En, Eps. rewrite <- (nth_firstn_lt (Z.to_nat i) (Z.to_nat j)) by lia. apply nth_In.
+      rewrite firstn_length, map_length. unfold j, zlen in *. lia. }
+    pose proof (vdepth_in_fold_max _ _ Hin). lia. }
+  specialize (Hcells F' HFk).
+  cbn [enc]. rewrite Ldws, Lps.
+  unfold ptr_word, ss. cbn [p_valid negb p_kind p_size p_off]. unfold os_isZero. cbn [DataSize PointerCount].
+  destruct ((k =? 0) && (j =? 0)) eqn:E0.
+  - (* the zero-sized struct *)
+    assert (k = 0 /\ j = 0) as [Ek Ej] by lia.
+    replace ((8 * k =? 0) && (j =? 0)) with true by lia.
+    destruct dws; [|unfold zlen in Ldws; cbn [length] in Ldws; lia].
+    destruct pwords; [|unfold zlen in Lp; cbn [length] in Lp; lia].
+    rewrite Ej in Hcells. cbn [Z.to_nat firstn map enc_cells] in Hcells. inversion Hcells. reflexivity.
+  - replace ((8 * k =? 0) && (j =? 0)) with false by lia.
+    unfold two16, two29.
+    destruct ((k >=? 65536) || (j >=? 65536) || (zlen data / 8 - a / 8 - 1 >=? 536870912)) eqn:E1; [lia|].
+    unfold struct_cells. rewrite enc_cells_app_words, Ldws.
+    replace (zlen data / 8 + k) with (zlen data / 8 + k) by reflexivity.
+    rewrite <- Eps in Hcells.
+    replace (zlen data1 / 8) with (zlen data / 8 + k + j) in Hcells by lia.
+    rewrite Hcells. cbn [cbind fst snd]. replace (8 * k / 8) with k by lia. reflexivity.
+Qed.
 
 End Ind.
